@@ -147,6 +147,10 @@ def _check_ldf(utils, v, s2, d2, w, h, dist, details, perms=PERMS):
                 "longest_dimension_first: dimensions are not walked longest "
                 "first, each in one run",
                 dict(details, vector=list(v), runs=runs))
+        # the list is the caller's from here on (multi-leg routes are built
+        # by extending it): what is done to it must not show in later walks
+        if isinstance(path, list):
+            path.append((None, ("caller's", "leg")))
 
 
 # ---------------------------------------------------------------- torus (enum)
@@ -401,6 +405,33 @@ def check_hexagons(case):
     ds = [hexgrid.hexnorm(x - sx, y - sy) for (x, y) in got]
     require(ds == sorted(ds), "concentric_hexagons is not nearest ring first",
             {"radius": r})
+    # two generators of different radii alive at the same time (a search
+    # around every chip of a ring, zip of two rings ...), advanced in turn
+    r2 = r + 1 + (sx % 3) if r < 4 else r // 2
+    with sut("concentric_hexagons, two generators in turn"):
+        ga = geometry.concentric_hexagons(r, (sx, sy))
+        gb = geometry.concentric_hexagons(r2, (sx - 1, sy + 2))
+        got_a, got_b = [], []
+        done_a = done_b = False
+        while not (done_a and done_b):
+            if not done_a:
+                try:
+                    got_a.append(tuple(next(ga)))
+                except StopIteration:
+                    done_a = True
+            if not done_b:
+                try:
+                    got_b.append(tuple(next(gb)))
+                except StopIteration:
+                    done_b = True
+    expect_b = [(sx - 1 + x, sy + 2 + y) for (x, y) in hexgrid.mesh_bfs(r2)]
+    require(got_a == got and sorted(got_b) == sorted(expect_b) and
+            len(got_b) == len(set(got_b)),
+            "concentric_hexagons: a generator advanced in turn with another "
+            "one of a different radius does not yield what it yields alone",
+            {"radius": r, "other_radius": r2, "alone": len(got),
+             "in_turn": len(got_a), "other": len(got_b),
+             "other_expected": len(expect_b)})
     if r == 0:
         with sut("concentric_hexagons default start"):
             d = [tuple(c) for c in geometry.concentric_hexagons(2)]
